@@ -174,6 +174,64 @@ def gen_program(rng, max_tasks=6, allow_cycles=False, allow_cmds=True, allow_rai
     return prog
 
 
+def gen_deep_chain_program(rng):
+    """A join far below the task that decides it: a chain of 6-9 tasks leads to a join that also has a short second
+    inbound branch; one link of the chain breaks (the task fails without an error route, or its guard is false) at a
+    random depth, or none does.  The join's logical state has to be found through up to nine levels of tasks that
+    have no execution yet (direct_workflow._possible_route and its bounded task-execution cache)."""
+    k = rng.randint(6, 9)
+    tasks = [dict(join=None, succ=[], err=[], compl=[], outs=['ok']) for _ in range(k)]
+    for i in range(k - 1):
+        tasks[i]['succ'].append((i + 1, 'N'))
+    side = len(tasks)
+    tasks.append(dict(join=None, succ=[], err=[], compl=[], outs=[rng.choice(['ok', 'ok', 'err'])]))
+    j = len(tasks)
+    tasks.append(dict(join=rng.choice(['all', 'all', 'one']), succ=[], err=[], compl=[], outs=['ok']))
+    tasks[k - 1]['succ'].append((j, 'N'))
+    tasks[side][rng.choice(['succ', 'compl'])].append((j, 'N'))
+    r = rng.random()
+    if r < 0.45:
+        tasks[rng.randrange(k)]['outs'] = ['err']                       # the chain breaks: a task fails
+    elif r < 0.75:
+        b = rng.randrange(k - 1)
+        tasks[b]['succ'] = [(b + 1, 'F')]                               # ... or a transition is not taken
+    if rng.random() < 0.3:
+        tail = len(tasks)
+        tasks.append(dict(join=None, succ=[], err=[], compl=[], outs=['ok']))
+        tasks[j][rng.choice(['succ', 'err', 'compl'])].append((tail, 'N'))
+    return Program(tasks)
+
+
+def gen_backlog_program(rng):
+    """Programs that leave commands in the BACKLOG while other work is still in flight: a task whose clause is
+    [pause, <tasks ...>] (the workflow pauses itself, the remaining commands are saved), next to one or two parallel
+    branches that are still running, optionally followed by joins.  With an operator stop issued while PAUSED and
+    results delivered afterwards these are the runs in which a stopped workflow could still get tasks from its backlog."""
+    tasks = []
+
+    def t(**kw):
+        d = dict(join=None, succ=[], err=[], compl=[], outs=[rng.choice(['ok', 'ok', 'ok', 'err'])])
+        d.update(kw)
+        tasks.append(d)
+        return len(tasks) - 1
+    nb = rng.randint(1, 3)                          # parallel start tasks besides the pausing one
+    p = t(outs=[rng.choice(['ok', 'ok', 'err'])])
+    others = [t() for _ in range(nb)]
+    later = [t() for _ in range(rng.randint(1, 3))]
+    field = 'succ' if tasks[p]['outs'][0] == 'ok' else rng.choice(['err', 'compl'])
+    tasks[p][field] = [('pause', 'N')] + [(x, rng.choice(['N', 'N', 'T'])) for x in later]
+    if rng.random() < 0.3:
+        tasks[p][field].insert(rng.randrange(1, len(tasks[p][field]) + 1), ('pause', 'N'))   # a second pause (F19 shape)
+    for o in others:
+        if rng.random() < 0.7:
+            tasks[o][rng.choice(['succ', 'compl'])].append((rng.choice(later), 'N'))
+    prog = Program(tasks)
+    for i in later:
+        if len(prog.inbound(i)) >= 2 and rng.random() < 0.6:
+            tasks[i]['join'] = rng.choice(['all', 'one'])
+    return prog
+
+
 def gen_join_tree_program(rng, join_kinds=('all',), allow_raise=False):
     """Nested fork / join shapes: 2-4 leaf tasks feed an inner join (directly, on-success / on-error /
     on-complete, with conditions that may not fire), the inner join and further leaves feed an outer join,
@@ -369,6 +427,8 @@ def run_real_trace(d, prog, seed, inject=None, max_events=400, style='yaql'):
             if r < acc:
                 chosen = name
                 break
+        if chosen is None and inject.get('stop_when_paused') and _wf_state(d) == 'PAUSED' and rng.random() < inject['stop_when_paused']:
+            chosen = 'stop'          # a stop landing on a PAUSED workflow (its backlog may hold commands)
         if chosen == 'evict':
             from mistral.lang import parser as spec_parser
             spec_parser.clear_caches()
@@ -824,7 +884,7 @@ PROFILES = {
     'plain': {},
     'operator': {'pause': 0.04, 'resume': 0.04, 'stop': 0.012, 'rerun': 0.03, 'skip': 0.02, 'dup': 0.04},
     'pause': {'pause': 0.07, 'resume': 0.06},
-    'stop': {'stop': 0.04, 'pause': 0.02, 'resume': 0.02},
+    'stop': {'stop': 0.04, 'pause': 0.02, 'resume': 0.02, 'stop_when_paused': 0.25},
     'rerun': {'rerun': 0.07, 'skip': 0.04, 'pause': 0.01, 'resume': 0.02},
     'dup': {'dup': 0.12},
     'evict': {'evict': 0.3},
@@ -961,6 +1021,10 @@ def trace_suite(ctx, props, profiles, n_quick, n_thorough, suite='engine_trace',
         heavy = i % 5 == 2
         if i % 7 == 3:
             prog = gen_join_tree_program(rng, join_kinds=('all', 'all', 'one', 2), allow_raise=True)   # nested joins
+        elif i % 7 == 6:
+            prog = gen_deep_chain_program(rng)                                                        # a join far below
+        elif i % 7 == 5 and ('stop' in PROFILES[prof] or 'pause' in PROFILES[prof]):
+            prog = gen_backlog_program(rng)                                                           # commands in the backlog
         else:
             prog = gen_program(rng, max_tasks=max_tasks, allow_cycles=cyc, cmd_rate=0.45 if heavy else 0.12,
                                cmd_targets=(['pause', 'pause', 'pause', 'noop', 'fail', 'succeed'] if heavy and 'pause' in PROFILES[prof] else None))
